@@ -15,7 +15,6 @@ M = [
  ("C10-window-before-exclusive", "C10", "src/readers/evtxreader.rs", None, None, "placeholder"),
  ("C14-at-relative-to-now", "C14", "src/bin/s4.rs", "                Some(dt_other) => {\n                    defo!(\"other     {:?}\", dt_other);\n                    let other_off = dt_other.checked_add_signed(duration);", "                Some(dt_other) => {\n                    defo!(\"other     {:?}\", dt_other);\n                    let other_off = dt_other.checked_add_signed(duration + Duration::try_milliseconds(1).unwrap());", "@-relative bound off by one millisecond"),
  ("C11-year-step-threshold", "C11", "src/readers/syslogprocessor.rs", "Duration::try_seconds(60 * 60 * 25).unwrap();", "Duration::try_seconds(60 * 60 * 24 * 40).unwrap();", "year wrap only detected for jumps above 40 days"),
- ("C12-lz4-last-block", "C05", "src/readers/blockreader.rs", "            block.truncate(size_total);\n", "            if size_total > 16 { block.truncate(size_total); }\n", "lz4: a final block of 16 bytes or fewer keeps its zero padding"),
  ("C13-missing-separator-evtx", "C13", "src/bin/s4.rs", None, None, "placeholder"),
  ("C01-ties-by-reverse-pathid", "C01", "src/bin/s4.rs", "                        x.1.0.dt().cmp(y.1.0.dt())\n", "                        x.1.0.dt().cmp(y.1.0.dt()).then(y.0.cmp(x.0))\n", "cross-source ties printed in reverse naming order"),
  ("C02-final-newline-not-supplied", "C02", "src/bin/s4.rs", "                    if is_last && !(*syslinep).ends_with_newline() {", "                    if is_last && !(*syslinep).ends_with_newline() && (*syslinep).count_lines() > 1 {", "final newline supplied only for multi-line last messages"),
